@@ -201,6 +201,30 @@ Section Announce.
     end.
 
   Definition empty_state : state := {| st_store := []; st_delivered := [] |}.
+
+  (* The connection to the introducer may be lost and re-established between batches
+     (IntroducerClient._disconnected / _got_versioned_introducer): _publisher and _subscriptions are
+     reset, _inbound_announcements -- the table of accepted sequence numbers -- is NOT touched. *)
+  Inductive event : Type := EBatch (ws : list wire) | EReconnect.
+
+  Definition on_reconnect (st : state) : state := st.
+
+  Fixpoint run_events (client : bool) (subscribed : N -> bool) (st : state) (evs : list event) : state * list (list verdict) :=
+    match evs with
+    | [] => (st, [])
+    | EBatch b :: r =>
+        let (st1, vs) := got_announcements client subscribed st b in
+        let (st2, vss) := run_events client subscribed st1 r in
+        (st2, vs :: vss)
+    | EReconnect :: r => run_events client subscribed (on_reconnect st) r
+    end.
+
+  Fixpoint batches_of (evs : list event) : list (list wire) :=
+    match evs with
+    | [] => []
+    | EBatch b :: r => b :: batches_of r
+    | EReconnect :: r => batches_of r
+    end.
 End Announce.
 
 Arguments SfEmpty {sig}.
@@ -223,6 +247,10 @@ Arguments step {pubkey keystr msg sig} verify parse_key canon decode keystr_eqb 
 Arguments got_announcements {pubkey keystr msg sig} verify parse_key canon decode keystr_eqb client subscribed st batch.
 Arguments run_stream {pubkey keystr msg sig} verify parse_key canon decode keystr_eqb client subscribed st batches.
 Arguments empty_state {keystr}.
+Arguments EBatch {keystr msg sig} ws.
+Arguments EReconnect {keystr msg sig}.
+Arguments run_events {pubkey keystr msg sig} verify parse_key canon decode keystr_eqb client subscribed st evs.
+Arguments batches_of {keystr msg sig} evs.
 
 (* ---- executable symbolic instance ----
    keys are numbered; a key string is (key id, spelling): spelling 0 is the
@@ -251,6 +279,11 @@ Definition sym_run (alias_ok : bool) (tbl : sym_ann_table) (client : bool) (subs
   : state sym_keystr * list (list verdict) :=
   run_stream sym_verify (sym_parse_key alias_ok) sym_canon (sym_ann_decode tbl) sym_keystr_eqb
              client (fun s => existsb (N.eqb s) subs) empty_state batches.
+
+Definition sym_run_events (alias_ok : bool) (tbl : sym_ann_table) (client : bool) (subs : list N)
+           (evs : list (event sym_keystr N sym_sig)) : state sym_keystr * list (list verdict) :=
+  run_events sym_verify (sym_parse_key alias_ok) sym_canon (sym_ann_decode tbl) sym_keystr_eqb
+             client (fun s => existsb (N.eqb s) subs) empty_state evs.
 
 (* observables compared with the implementation *)
 Definition delivered_ids (st : state sym_keystr) : list (N * N * N) :=
